@@ -46,19 +46,35 @@ def check(ctx):
     if n5 < 8:
         raise AnalysisError(f"only {n5} type-specifier branches found in the specifier loops (confirmed by reading: 10)")
     # ---- R-C04.1 -------------------------------------------------------------
-    for target, only in (("_push_scope", {"_lex_on_lbrace_func"}), ("_pop_scope", {"_lex_on_rbrace_func"})):
+    init = px.method("CParser", "__init__")
+    wired = {k.arg: k.value.attr for n in ast.walk(init) for k in (n.keywords if isinstance(n, ast.Call) else []) if isinstance(k.value, ast.Attribute)}
+
+    def passes_through(mname):
+        """the method a callback stands for: itself, or - when its body only hands its arguments on (`self.T(...)` / `return self.T(...)`) - that method"""
+        m_ = px.methods("CParser").get(mname)
+        if m_ is None:
+            return mname
+        body = [st for st in m_.body if not (isinstance(st, ast.Expr) and isinstance(st.value, ast.Constant))]
+        if len(body) == 1 and isinstance(body[0], (ast.Expr, ast.Return)) and isinstance(body[0].value, ast.Call) and isinstance(body[0].value.func, ast.Attribute) \
+                and isinstance(body[0].value.func.value, ast.Name) and body[0].value.func.value.id == m_.args.args[0].arg:
+            params = [a.arg for a in m_.args.args[1:]]
+            if [S.unparse(a) for a in body[0].value.args] == params and not body[0].value.keywords:
+                return body[0].value.func.attr
+        return mname
+    effective = {kw: passes_through(wired.get(kw, "")) for kw in ("on_lbrace_func", "on_rbrace_func", "type_lookup_func")}
+    for target, kw in (("_push_scope", "on_lbrace_func"), ("_pop_scope", "on_rbrace_func")):
         callers = cg.callers(target)
-        ok = callers == only
+        # reached only as the lexer's callback: through a pass-through wrapper, or handed to the lexer itself by the constructor
+        only = {wired.get(kw)} if wired.get(kw) != target else {"__init__"}
+        ok = callers == only and effective[kw] == target
         ctx.oblige("R-C04.1", f"callers of {target}", ok, sample={"rule": "R-C04.1", "method": target, "callers": sorted(callers)})
         if not ok:
             ctx.violation("R-C04.1", f"scope-callers:{target}:{sorted(callers)}", f"{target} is called from {sorted(callers)} (expected only {sorted(only)}): scopes would open/close at points that are not braces", file=px.rel, function=f"CParser.{target}")
-    init = px.method("CParser", "__init__")
-    wired = {k.arg: k.value.attr for n in ast.walk(init) for k in (n.keywords if isinstance(n, ast.Call) else []) if isinstance(k.value, ast.Attribute)}
-    for kw, meth in (("on_lbrace_func", "_lex_on_lbrace_func"), ("on_rbrace_func", "_lex_on_rbrace_func"), ("type_lookup_func", "_lex_type_lookup_func")):
-        ok = wired.get(kw) == meth
+    for kw, meth in (("on_lbrace_func", "_push_scope"), ("on_rbrace_func", "_pop_scope"), ("type_lookup_func", "_is_type_in_scope")):
+        ok = effective.get(kw) == meth
         ctx.oblige("R-C04.1", f"lexer callback {kw}", ok)
         if not ok:
-            ctx.violation("R-C04.1", f"callback:{kw}", f"CParser.__init__ passes {wired.get(kw)} as {kw} (expected {meth})", file=px.rel, function="CParser.__init__")
+            ctx.violation("R-C04.1", f"callback:{kw}", f"CParser.__init__ passes {wired.get(kw)} as {kw} (expected {meth} or a method that only hands on to it)", file=px.rel, function="CParser.__init__")
     # lexer side: callbacks fire on LBRACE / RBRACE tokens only, once
     calls = {"on_lbrace_func": [], "on_rbrace_func": []}
     for mname, fn in lx.methods("CLexer").items():
@@ -126,6 +142,8 @@ def check(ctx):
     allowed = {"_is_type_in_scope": {"_scope_stack"}, "_lex_type_lookup_func": {"_is_type_in_scope"}, "_add_typedef_name": {"_scope_stack", "_parse_error"},
                "_add_identifier": {"_scope_stack", "_parse_error"}, "_push_scope": {"_scope_stack"}, "_pop_scope": {"_scope_stack", "_parse_error", "clex"}}
     for meth, okset in allowed.items():
+        if meth == "_lex_type_lookup_func" and meth not in px.methods("CParser"):
+            continue          # no pass-through wrapper: the lookup itself is the lexer's callback (checked above)
         f2 = px.method("CParser", meth)
         used = {n.attr for n in ast.walk(f2) if isinstance(n, ast.Attribute) and isinstance(n.value, ast.Name) and n.value.id == "self"}
         extra = sorted(used - okset)
@@ -138,8 +156,10 @@ def check(ctx):
     ctx.oblige("R-C04.2", "_is_type_in_scope has no exit besides the loop hit and the final False", ok)
     if not ok:
         ctx.violation("R-C04.2", "lookup-extra-exit", f"_is_type_in_scope has {nret} return statements (expected: the hit inside the loop and the final `return False`): an extra exit answers without consulting the scopes", file=px.rel, function="CParser._is_type_in_scope")
-    tl = px.method("CParser", "_lex_type_lookup_func")
-    ok = any(isinstance(n, ast.Call) and isinstance(n.func, ast.Attribute) and n.func.attr == "_is_type_in_scope" for n in ast.walk(tl)) and len([n for n in ast.walk(tl) if isinstance(n, ast.Return)]) == 1
+    tl = px.methods("CParser").get(wired.get("type_lookup_func", ""))
+    if tl is None:
+        raise AnalysisError("the method handed to the lexer as type_lookup_func was not found")
+    ok = tl.name == "_is_type_in_scope" or (any(isinstance(n, ast.Call) and isinstance(n.func, ast.Attribute) and n.func.attr == "_is_type_in_scope" for n in ast.walk(tl)) and len([n for n in ast.walk(tl) if isinstance(n, ast.Return)]) == 1)
     ctx.oblige("R-C04.2", "_lex_type_lookup_func = _is_type_in_scope", ok)
     if not ok:
         ctx.violation("R-C04.2", "lookup-callback", "_lex_type_lookup_func must answer with _is_type_in_scope(name)", file=px.rel, function="CParser._lex_type_lookup_func")
